@@ -289,3 +289,33 @@ pub fn enum_combos(dims: &[(usize, usize)], cap: usize) -> Vec<Vec<(usize, u64)>
         out
     }
 }
+
+/// the most recent panics (message, location) seen by the panic hook: lets the top level tell a panic raised inside the
+/// crate under test (a refusal the check did not expect: a verdict) from one raised by the harness itself (machinery)
+pub static PANICS: std::sync::Mutex<std::collections::VecDeque<(String, String)>> = std::sync::Mutex::new(std::collections::VecDeque::new());
+pub fn install_panic_hook(trace: bool) {
+    let default = std::panic::take_hook();
+    std::panic::set_hook(Box::new(move |info| {
+        let msg = if let Some(s) = info.payload().downcast_ref::<&str>() {
+            s.to_string()
+        } else if let Some(s) = info.payload().downcast_ref::<String>() {
+            s.clone()
+        } else {
+            "panic".to_string()
+        };
+        let loc = info.location().map(|l| format!("{}:{}", l.file(), l.line())).unwrap_or_default();
+        if let Ok(mut q) = PANICS.lock() {
+            if q.len() >= 256 {
+                q.pop_front();
+            }
+            q.push_back((msg, loc));
+        }
+        if trace {
+            default(info);
+        }
+    }));
+}
+/// where the most recent panic with this message was raised
+pub fn panic_site(msg: &str) -> Option<String> {
+    PANICS.lock().ok().and_then(|q| q.iter().rev().find(|(m, _)| m == msg).map(|(_, l)| l.clone()))
+}
